@@ -49,7 +49,7 @@ def run(tier, seed):
     v = vlib.Verdict(PROP, tier, seed, "model_checking")
     work = vlib.scratch("c09-")
     quick = tier == "quick"
-    fixed = dict(K=3, RefillAfterTake=False, CommitToFirst=False)
+    fixed = dict(K=3, RefillAfterTake=False, CommitToFirst=False, RelayPaths='{}', ExtrasOnDirect=False)
     r = vlib.run_tlc('ConnRace', dict(constants=dict(fixed, Track=False), invariants=INV, view='View'), workers=8, want_edges=False, timeout=900)
     if r['violated']:
         raise vlib.HarnessTrouble("ConnRace.tla refuted for the repaired design:\n" + r['violation_text'][:1500])
@@ -64,6 +64,21 @@ def run(tier, seed):
         controls[sw] = rn['violated']
         if not rn['violated']:
             raise vlib.HarnessTrouble("negative control %s=TRUE not refuted" % sw)
+    # the receiver's relay allocation as a second listener: candidates behind it are dialled only after the direct round
+    # has failed; the additional connections must be awaited on the listener the primary came in on (ExtrasMeet);
+    # the design before fix 3639207 (always the direct listener) must be refuted
+    relay_runs = []
+    for rp in ('{3}', '{2,3}', '{1,2,3}'):
+        c = dict(fixed, Track=False, RelayPaths=rp)
+        rr = vlib.run_tlc('ConnRace', dict(constants=c, invariants=INV + ['ExtrasMeet'], view='View'), workers=8, want_edges=False, timeout=900)
+        if rr['violated']:
+            raise vlib.HarnessTrouble("ConnRace.tla (RelayPaths=%s) refuted for the repaired design:\n" % rp + rr['violation_text'][:1500])
+        relay_runs.append(dict(RelayPaths=rp, distinct=rr['distinct'], generated=rr['generated']))
+    rn = vlib.run_tlc('ConnRace', dict(constants=dict(fixed, Track=False, RelayPaths='{3}', ExtrasOnDirect=True), invariants=['ExtrasMeet'], view='View'),
+                      workers=4, want_edges=False, expect_violation=True)
+    controls['ExtrasOnDirect'] = rn['violated']
+    if not rn['violated']:
+        raise vlib.HarnessTrouble("negative control ExtrasOnDirect=TRUE not refuted")
     ep = os.path.join(work, "connrace.ndjson")
     re_ = vlib.run_tlc('ConnRace', dict(constants=dict(fixed, Track=True), view='View', action_constraint='Emit'), workers=8, edges_path=ep, timeout=900)
     srv = vlib.build_repo_bin('./cmd/thruserv', 'thruserv')
